@@ -99,6 +99,11 @@ func Cleanup() {
 // If mustAgree is set, it waits for a second definite answer (within the timeout) and
 // reports disagreement through the error.
 func Solve(sc *Script, nGets int, timeoutS int, seed int, only string) (*Result, error) {
+	return SolveWithAbstraction(sc, nil, nGets, timeoutS, seed, only)
+}
+
+// SolveWithAbstraction additionally races z3 on a QF_BV over-approximation; only its "unsat" counts.
+func SolveWithAbstraction(sc *Script, abs *Script, nGets int, timeoutS int, seed int, only string) (*Result, error) {
 	fileMu.Lock()
 	fileSeq++
 	n := fileSeq
@@ -127,8 +132,45 @@ func Solve(sc *Script, nGets int, timeoutS int, seed int, only string) (*Result,
 		r   *Result
 		err error
 	}
-	ch := make(chan one, len(bs))
+	nAbs := 0
+	absFile := ""
+	if abs != nil && only == "" {
+		absFile = file + ".abs.smt2"
+		if err := os.WriteFile(absFile, []byte(abs.Text), 0o644); err == nil {
+			defer os.Remove(absFile)
+			for _, b := range Backends() {
+				if strings.HasPrefix(b.Name, "z3") {
+					nAbs++
+				}
+			}
+		}
+	}
+	ch := make(chan one, len(bs)+nAbs)
 	start := time.Now()
+	if nAbs > 0 {
+		for _, b := range Backends() {
+			if !strings.HasPrefix(b.Name, "z3") {
+				continue
+			}
+			b := b
+			go func() {
+				args := b.Args(absFile, timeoutS, seed)
+				cmd := exec.CommandContext(ctx, args[0], args[1:]...)
+				var out bytes.Buffer
+				cmd.Stdout = &out
+				cmd.Stderr = &out
+				cmd.Run()
+				r := parseOutput(out.String(), 0)
+				if r.Verdict != Unsat {
+					r.Verdict = Unknown // a model of the abstraction proves nothing
+					r.Raw = "abstraction inconclusive"
+				}
+				r.Solver = b.Name + "/qfbv-abstraction"
+				r.Seconds = time.Since(start).Seconds()
+				ch <- one{r, nil}
+			}()
+		}
+	}
 	for _, b := range bs {
 		b := b
 		go func() {
@@ -146,7 +188,7 @@ func Solve(sc *Script, nGets int, timeoutS int, seed int, only string) (*Result,
 	}
 	var raws []string
 	var last *Result
-	for range bs {
+	for k := 0; k < len(bs)+nAbs; k++ {
 		o := <-ch
 		last = o.r
 		if o.r.Verdict != Unknown {
